@@ -6,6 +6,8 @@ import Driver.Memory
 import Driver.Frame
 import Driver.CallTracer
 import Driver.Interp
+import Driver.AccessList
+import Driver.Modexp
 /-
   Model driver: one input line ↦ one output line (see DESIGN.md §2.6).
 -/
@@ -56,6 +58,8 @@ def dispatch (st : DState) (toks : List String) : DState × String :=
   | "J" :: rest =>
     let (j, tr, out) := Driver.journalOp st.j st.tr rest
     ({ st with j := j, tr := tr }, out)
+  | "AL" :: rest => (st, Driver.aclLine rest)
+  | "MX" :: rest => (st, Driver.modexpLine rest)
   | "IX" :: rest =>
     let (tr, out) := Driver.interpLine st.j st.tr rest
     ({ st with tr := tr }, out)
@@ -63,6 +67,15 @@ def dispatch (st : DState) (toks : List String) : DState × String :=
   | "S" :: "memmove" :: rest => (st, Driver.specMemmove rest)
   | "TX" :: rest => (st, Driver.transientLine rest)
   | ["S", "gate", fork, _] => (st, if fork = "Cancun" then "valid" else "invalid")
+  | ["S", "stackbounds", op, h] =>
+    -- EIP-1153 / EIP-5656 arities: TLOAD 1 → 1, TSTORE 2 → 0, MCOPY 3 → 0; the stack holds at most 1024 items
+    match parseHexNat op, parseHexNat h with
+    | some op, some h =>
+      let ar : Option (Nat × Nat) := if op = 0x5c then some (1, 1) else if op = 0x5d then some (2, 0) else if op = 0x5e then some (3, 0) else none
+      match ar with
+      | some (pops, pushes) => (st, if h < pops then "underflow" else if h - pops + pushes > 1024 then "overflow" else "ok")
+      | none => (st, "bad-op")
+    | _, _ => (st, "bad-op")
   | "P" :: rest => (st, Driver.precompileLine true rest)
   | "PB" :: rest => (st, Driver.precompileLine false rest)
   | "S" :: "abibytes" :: rest => (st, Driver.specAbiBytes rest)
@@ -80,7 +93,9 @@ def dispatch (st : DState) (toks : List String) : DState × String :=
   | ["S", "atomic"] => (st, "ok")
   | ["S", "atomic-accounts"] => (st, "ok")
   | ["S", "atomic-nonces"] => (st, "ok")
+  | "S" :: "path-resolves" :: _ => (st, "ok")
   | ["S", "conc-same"] => (st, "same")
+  | ["S", "conc-artela-same"] => (st, "same")
   | ["S", "cancel-safe"] => (st, "ok")
   -- C01/C02/C18 specification: the fork behaves exactly like go-ethereum v1.12.0 on standard programs
   | "S" :: "upstream-same" :: _ => (st, "same")
@@ -88,6 +103,7 @@ def dispatch (st : DState) (toks : List String) : DState × String :=
   | "S" :: "tracer-same" :: _ => (st, "same")
   | "S" :: "tracer-no-panic" :: _ => (st, "ok")
   | "S" :: "tracer-same-tree" :: _ => (st, "same")
+  | "S" :: "tracer-same-spine" :: _ => (st, "same")
   | ["S", "ctrender"] => (st, "ok")
   | ["S", "ctflatinv"] => (st, if preFirstB st.ct.st then "ok" else "join_points_not_pre_first:theorems_do_not_apply")
   | ["S", "ctflatown"] => (st, "ok")
@@ -102,6 +118,7 @@ def dispatch (st : DState) (toks : List String) : DState × String :=
   | ["S", "tstore-static"] => (st, "ok")
   | "S" :: "stdwork" :: _ => (st, "ok")
   | "S" :: "stdgas" :: _ => (st, "ok")
+  | "S" :: "stdrun" :: _ => (st, "same")
   | ["S", "jp"] => (st, "ok")
   | ["S", "gas"] => (st, "ok")
   | ["S", "node"] => (st, "ok")
